@@ -20,7 +20,66 @@ var sharedLimit = []float64{1.5}
 
 var qpoints = []orb.Point{{1.5, 1.5}, {4.5, 2}, {2, 2}}
 
+// deep selects the second scenario: a tree more than 32 levels deep (36 coincident pointers plus three that
+// leave the common path only around level 42), queried around the hot spot.
+var deep = false
+
+var hot = orb.Point{1.3, 0.7} // off every dyadic line, so that the near pointers share the path down to level ~42
+
+const eps = 1.0 / (1 << 40)
+
+func deepMenu() []query {
+	even := func(yield func()) quadtree.FilterFunc {
+		return func(p orb.Pointer) bool { yield(); return p.(*qt.P).ID%2 == 0 }
+	}
+	one := func(p orb.Pointer) []orb.Pointer {
+		if p == nil {
+			return nil
+		}
+		return []orb.Pointer{p}
+	}
+	small := orb.Bound{Min: orb.Point{0.8, 0.2}, Max: orb.Point{1.8, 1.2}}
+	tiny := orb.Bound{Min: hot, Max: orb.Point{hot[0] + eps/2, hot[1] + eps/2}}
+	return []query{
+		{"Find(hot)", func(q *quadtree.Quadtree, y func()) []orb.Pointer { return one(q.Find(hot)) }},
+		{"Find([3 3])", func(q *quadtree.Quadtree, y func()) []orb.Pointer { return one(q.Find(orb.Point{3, 3})) }},
+		{"KNearest(nil,hot,3)", func(q *quadtree.Quadtree, y func()) []orb.Pointer { return q.KNearest(nil, hot, 3) }},
+		{"KNearest(nil,hot+eps,38)", func(q *quadtree.Quadtree, y func()) []orb.Pointer { return q.KNearest(nil, orb.Point{hot[0] + eps, hot[1]}, 38) }},
+		{"KNearestMatching(nil,hot,2,even)", func(q *quadtree.Quadtree, y func()) []orb.Pointer { return q.KNearestMatching(nil, hot, 2, even(y)) }},
+		{"InBound(nil,hot+-0.5)", func(q *quadtree.Quadtree, y func()) []orb.Pointer { return q.InBound(nil, small) }},
+		{"InBoundMatching(nil,tiny,even)", func(q *quadtree.Quadtree, y func()) []orb.Pointer { return q.InBoundMatching(nil, tiny, even(y)) }},
+	}
+}
+
+func deepUniverse() *qt.Universe {
+	var pts []orb.Point
+	var mc []int
+	for i := 0; i < 36; i++ {
+		pts = append(pts, hot)
+	}
+	pts = append(pts, orb.Point{hot[0] + eps, hot[1]}, orb.Point{hot[0], hot[1] + eps}, orb.Point{hot[0] - eps, hot[1] - eps}, orb.Point{3, 3})
+	for range pts {
+		mc = append(mc, 1)
+	}
+	return qt.NewUniverse(orb.Bound{Min: orb.Point{0, 0}, Max: orb.Point{4, 4}}, pts, mc)
+}
+
+// deepTrees: everything added in index order, in reverse order, and in index order with two coincident pointers removed again.
+func deepTrees() [][]qt.Op {
+	n := len(deepUniverse().Ps)
+	var fwd, rev []qt.Op
+	for i := 0; i < n; i++ {
+		fwd = append(fwd, qt.Op{Kind: 0, P: i})
+		rev = append(rev, qt.Op{Kind: 0, P: n - 1 - i})
+	}
+	rem := append(append([]qt.Op{}, fwd...), qt.Op{Kind: 1, P: 0}, qt.Op{Kind: 1, P: 17})
+	return [][]qt.Op{fwd, rev, rem}
+}
+
 func menu() []query {
+	if deep {
+		return deepMenu()
+	}
 	var m []query
 	one := func(p orb.Pointer) []orb.Pointer {
 		if p == nil {
@@ -88,6 +147,9 @@ func menu() []query {
 }
 
 func universe() *qt.Universe {
+	if deep {
+		return deepUniverse()
+	}
 	pts := []orb.Point{{2, 2}, {2, 2}, {1, 1}, {3, 2}}
 	return qt.NewUniverse(orb.Bound{Min: orb.Point{0, 0}, Max: orb.Point{4, 4}}, pts, []int{1, 1, 1, 1})
 }
